@@ -132,6 +132,13 @@ def container(rng, img, last=None, force=()):
     cont += bytes(rng.choice([0, 0, 5]))
     if rng.random() < 0.3:
         table.append((len(img) + 1000, 50, 0))      # a range that maps nothing
+    if rng.random() < 0.4:
+        # an EMPTY range that starts strictly inside a real one: it contains no offset, so the lookup must go on to
+        # the real range around it (a lookup that only consults the last range starting at or before the offset
+        # returns such offsets untranslated - seeded change c15-translator-upper-bound-lookup)
+        big = [(st, sz) for st, sz, _ in table if sz >= 2 and st < len(img)]
+        for st, sz in rng.sample(big, min(len(big), rng.randint(1, 2))):
+            table.insert(rng.randrange(len(table) + 1), (st + rng.randrange(1, sz), 0, rng.randrange(0, len(cont) + 50)))
     return bytes(cont), table
 
 
